@@ -2,24 +2,3 @@
 #![allow(unused_imports, dead_code)]
 use super::*;
 pub(crate) fn vk_key<K: Hash + Eq + Clone>(d: &KeyDescription<K>) -> &K { &d.key }
-
-// ---- scratch experiments on constant propagation through the set model
-use crate::cache::verif_rt::collections::HashSet as VSet;
-struct Holder { s: VSet<u64>, n: usize }
-fn mk() -> (Vec<u64>, VSet<u64>) { let mut s = VSet::new(); s.insert(1); (Vec::new(), s) }
-#[kani::proof]
-#[kani::unwind(6)]
-fn zz_set_a() {
-    let mut s: VSet<u64> = VSet::new();
-    s.insert(1);
-    s.insert(2);
-    assert!(s.contains(&1));
-}
-#[kani::proof]
-#[kani::unwind(6)]
-fn zz_set_b() {
-    let (_v, s) = mk();
-    let mut h = Holder { s, n: 3 };
-    h.s.insert(2);
-    assert!(h.s.contains(&1) && h.n == 3);
-}
